@@ -126,6 +126,28 @@ func taskBody(env *taskEnv, t *TaskScn) func() string {
 			err := formatBlocks(w, env.shared)
 			return fmt.Sprintf("err=%v\n%s", err, sw.Buf)
 		}
+	case "inspect":
+		// a reader of the shared tree: walks it and reads every node through
+		// every public accessor, as a caller's own renderer or linter would
+		return func() string {
+			var sb strings.Builder
+			for _, rb := range env.shared {
+				src := rb.Source
+				commonmark.Walk(rb.AsNode(), &commonmark.WalkOptions{Pre: func(c *commonmark.Cursor) bool {
+					simrt.Yield(sitePre)
+					inspectNode(&sb, src, c.Node())
+					return true
+				}})
+			}
+			for _, k := range sortedRefKeys(env.sharedRefs) {
+				d := env.sharedRefs[k]
+				fmt.Fprintf(&sb, "ref %q %q %q %v|", k, d.Destination, d.Title, d.TitlePresent)
+				if !env.sharedRefs.MatchReference(k) {
+					sb.WriteString("NOMATCH|")
+				}
+			}
+			return sb.String()
+		}
 	case "walk":
 		return func() string {
 			v := makeView(t.Walk, env.shared)
